@@ -23,6 +23,8 @@ type FakeMongo struct {
 	// AfterFind, when set, runs (under the lock) after a find has copied the matching document into its answer: a store
 	// that changes between two reads (an operator editing a tariff while requests are served)
 	AfterFind func(ns string, doc bson.M)
+	// BeforeFind, when set, runs before a find command takes the store's lock (a slow read)
+	BeforeFind func(ns string)
 	// FailUpdate, when set and returning true, makes an update command fail (a transient write error of the store)
 	FailUpdate func(ns string) bool
 }
@@ -206,6 +208,9 @@ func (f *FakeMongo) handle(db string, cmd bson.D, seqs map[string][]bsoncore.Doc
 	case "find":
 		coll, _ := cmd[0].Value.(string)
 		ns := db + "." + coll
+		if hook := f.BeforeFind; hook != nil {
+			hook(ns)
+		}
 		var filter bson.M
 		for _, e := range cmd {
 			if e.Key == "filter" {
